@@ -211,6 +211,11 @@ def _lazy_real_task(task, p):
             traces_validated_against_impl=res["executions"], nontrivial=max(0, res["executions"] - 1))
     p.note(f"lazy_real_{name}", {"bound": bound, "executions": res["executions"], "outcomes": res["outcomes"]})
     for choices, msg in res["violations"][:2]:
+        # a failing schedule is only trusted when replaying it twice gives identical observations
+        with warnings.catch_warnings():
+            warnings.simplefilter("ignore")
+            threads.replay_twice(make, codes, choices, "line",
+                                 lambda r, st: ([type(e).__name__ if e else None for e in r.errors], [_eq(x, y) for x, y in zip(r.results, expect)], r.deadlock))
         p.violation(sub, {"kernel": name, "schedule": choices}, {"kind": "lazy_real", "kernel": name, "schedule": choices, "bound": bound},
                     f"first-call race on {name}, schedule {choices}: {msg}")
     p.sample(sub, {"kernel": name, "threads": 2, "preemption_bound": bound, "outcomes": res["outcomes"]})
@@ -615,6 +620,9 @@ def _vprange_task(task, p):
         ok = not errs and np.array_equal(out[0], ref[0]) and np.array_equal(out[1], ref[1])
         outcomes["ok" if ok else "WRONG"] = outcomes.get("ok" if ok else "WRONG", 0) + 1
         if not ok and outcomes.get("WRONG", 0) <= 2:
+            r2, out2 = run_with(list(r.choices))
+            if list(r2.choices) != list(r.choices) or not (np.array_equal(out2[0], out[0]) and np.array_equal(out2[1], out[1], equal_nan=True)):
+                raise threads.ReplayDivergence("virtual prange: replaying a failing schedule gave different observations")
             p.violation(sub, {"cols": cols, "schedule": list(r.choices)}, {"kind": "vprange", "cols": cols, "schedule": list(r.choices)},
                         f"prange body interleaving {list(r.choices)[:60]}... gives a result different from the sequential run" + (f" (threads raised {errs})" if errs else ""))
         for i in range(len(prefix), len(r.points)):
